@@ -17,6 +17,7 @@ from mon import refbufr as R
 from mon import nested
 from mon.compare import diff_message, opsig, jsonable, td_of
 from mon.gen import cases
+from mon.gen import failures
 from mon.gen.shapes import SHAPES, EdgePolicy
 
 ID = 'C07'
@@ -248,6 +249,7 @@ def compare_case(ctx, dec, msg, origin, name=None, extra=None, enc=None):
         ctx.count('r_self_fail')
         return
     ctx.count('r_self_ok')
+    failures.maybe(ctx, [dec], [enc] if enc is not None else [], every=7)
     spec = dict(origin=origin, shape=name, ids=msg.ids, nsub=msg.nsub, compressed=msg.compressed,
                 edition=msg.edition, mtv=(msg.meta or {}).get('master_table_version', 33), hex=msg.bytes.hex())
     if extra:
